@@ -59,6 +59,10 @@ type Chain struct {
 	OnStoreReverted func(RevertEvent)
 
 	Stats map[string]int
+	// NoLegacyEphemeralSF disables spends of ephemeral siafund parents below the
+	// ephemeral-output fix height (their claimed ClaimStart is not checked by
+	// consensus in that window; C01 excludes it by its quantifier).
+	NoLegacyEphemeralSF bool
 	GenesisEvent ApplyEvent
 	LastReject *Rejected
 
